@@ -911,7 +911,7 @@ func (e *Engine) invoke(st *State, callee Value, args []Value, reg int, isDefer 
 		if fn.Blocks == nil {
 			panic(unsupported("call of body-less function " + name))
 		}
-		if len(st.Frames) > 400 {
+		if lim := 400; len(st.Frames) > lim && !(st.PeakOn && len(st.Frames) <= 4000000) {
 			panic(unsupported("call depth"))
 		}
 		nf := &Frame{Fn: fn, Info: fi, Block: fn.Blocks[0], Env: make([]Value, fi.n), RetReg: reg, IsDefer: isDefer, Catch: catchNext}
@@ -926,6 +926,9 @@ func (e *Engine) invoke(st *State, callee Value, args []Value, reg int, isDefer 
 		}
 		nf.IP = 0
 		st.Frames = append(st.Frames, nf)
+		if st.PeakOn && len(st.Frames) > st.PeakFrames {
+			st.PeakFrames = len(st.Frames)
+		}
 		return
 	}
 }
